@@ -140,7 +140,15 @@ func cmdC16(args []string) error {
 		if *small {
 			run.Consumer = []string{"guardian", "printer", "failing"}[rng.Intn(3)]
 		}
-		switch c := rng.Intn(6); {
+		switch c := rng.Intn(7); {
+		case c == 6 && run.NFiles > 0:
+			// the worker is about to validate file i (for the last file: every index has been dispatched, the
+			// consumer sees the cancellation before the file's wound exists)
+			i := run.NFiles - 1
+			if rng.Intn(3) == 0 {
+				i = rng.Intn(run.NFiles)
+			}
+			run.Cancel = fmt.Sprintf("at:w.doOne:%d", i)
 		case c == 0:
 			run.Cancel = "before"
 		case c == 1 && run.NFiles > 0:
